@@ -52,7 +52,7 @@ def r1_number_arms(rep, ctx):
     for i, r in enumerate(rets):
         v = r.value
         key = "Scalar._DoOperation:return%d:%s" % (i, norm(ast.unparse(v))[:50])
-        is_cwq = isinstance(v, ast.Call) and isinstance(v.func, ast.Attribute) and v.func.attr == "CreateWithQuantity" and _is_own_class(res, v.func.value)
+        is_cwq = isinstance(v, ast.Call) and _is_own_cwq(res, v.func)
         if not is_cwq:
             rep.bad("C09.R1", key, "Scalar._DoOperation can return `%s`: the result is not a new object built by CreateWithQuantity (a shortcut that returns an operand, or a bare number, skips the operation or strips the unit)" % ast.unparse(v), node=r, fn=fn)
             continue
@@ -85,12 +85,15 @@ def r1_number_arms(rep, ctx):
     found = False
     for c in calls:
         a = [res.term(x) for x in c.args]
-        if len(a) == 4 and a[0][0] == "call" and a[0][1][0] == "attr" and a[0][1][2] == "CreateEmpty":
+        def is_empty(x):
+            return x[0] == "call" and x[1][0] == "attr" and x[1][2] == "CreateEmpty"
+        if len(a) == 4 and any(is_empty(x) for x in alternatives(a[0])):
             found = True
-            par = c
-            while par is not None and not isinstance(par, ast.If):
-                par = getattr(par, "_parent", None)
-            ok = a[2] == ("param", P["p1"], "p1") and any(s[0] == "param" and s[2] == "p2" for s in walk(a[1])) and any(s[0] == "param" and s[2] == "p2" for s in walk(a[3])) and par is not None and "p1_is_number" in ast.unparse(par.test)
+            # left quantity: the empty quantity (number on the left) or p1's own; left value: p1 itself or own value
+            q_ok = all(is_empty(x) or (x[0] == "call" and x[1][0] == "attr" and x[1][1] == ("param", P["p1"], "p1") and x[1][2] == "GetQuantity") for x in alternatives(a[0]))
+            v_ok = all(x == ("param", P["p1"], "p1") or x == ("field", "_value") for x in alternatives(a[2])) and any(x == ("param", P["p1"], "p1") for x in alternatives(a[2]))
+            guard_ok = any("IsNumber($p1)" in show(res.term(x.test), 200) for x in ast.walk(fn.node) if isinstance(x, (ast.If, ast.IfExp)))
+            ok = q_ok and v_ok and guard_ok and any(s[0] == "param" and s[2] == "p2" for s in walk(a[1])) and any(s[0] == "param" and s[2] == "p2" for s in walk(a[3]))
             rep.check(ok, "C09.R1", "Scalar._DoOperation:number-over-scalar", "k / x goes through the database with the empty quantity and k on the left, x's quantity and value on the right",
                       "k / x calls the operation with %s" % [show(x, 40) for x in a], node=c, fn=fn)
     rep.check(found, "C09.R1", "Scalar._DoOperation:number-over-scalar:present", "the k / x arm exists", "no arm passes the empty quantity for a number on the left of a division", fn=fn)
@@ -100,7 +103,7 @@ def r1_number_arms(rep, ctx):
     for r in own_nodes(afn.node):
         if isinstance(r, ast.Return) and r.value is not None:
             v = r.value
-            ok = isinstance(v, ast.Call) and isinstance(v.func, ast.Attribute) and v.func.attr == "CreateWithQuantity" and _is_own_class(ares, v.func.value)
+            ok = isinstance(v, ast.Call) and _is_own_cwq(ares, v.func)
             rep.check(ok, "C09.R1", "Array._DoOperation:%s" % norm(ast.unparse(r))[:60], "the result is a new object of the operand's class built with a quantity", "Array._DoOperation can return `%s`" % ast.unparse(v), node=r, fn=afn)
     for st in own_statements(afn.node):
         if isinstance(st, ast.Assign) and isinstance(st.targets[0], ast.Name) and st.targets[0].id in ("q1", "q2") and "CreateEmpty" in ast.unparse(st.value):
@@ -109,6 +112,13 @@ def r1_number_arms(rep, ctx):
             guard = ast.unparse(par.test) if isinstance(par, ast.If) else ""
             ok = ("IsNumber(p%s)" % side) in guard and ("isinstance(p%s, numpy.ndarray)" % side) in guard
             rep.check(ok, "C09.R1", "Array._DoOperation:empty-on-own-side:q%s" % side, "the empty quantity stands for the number/ndarray operand on its own side", "q%s gets the empty quantity under `%s`" % (side, guard), node=st, fn=afn)
+
+
+def _is_own_cwq(res, f):
+    """<own class>.CreateWithQuantity, possibly through locals."""
+    t = res.term(f)
+    own = (("attr", ("self",), "__class__"), ("field", "__class__"), ("call", ("name", "type"), (("self",),), ()))
+    return all(a[0] == "attr" and a[2] == "CreateWithQuantity" and all(x in own for x in alternatives(a[1])) for a in alternatives(t))
 
 
 def _is_own_class(res, e):
